@@ -30,7 +30,64 @@ using namespace embedded_pairing::core;
 using namespace embedded_pairing::bls12_381;
 
 #define S(name, CT, XT) printf("S %s %zu %zu %zu %zu\n", name, sizeof(CT), alignof(CT), sizeof(XT), alignof(XT));
-#define O(name, CT, cm, XT, xm) printf("O %s.%s %zu %zu %zu %zu\n", name, #cm, offsetof(CT, cm), offsetof(XT, xm), sizeof(((CT*) 0)->cm), sizeof(((XT*) 0)->xm));
+/* A member that one side does not have under the name this table uses (a private cursor field was renamed, say) cannot be compared: its
+ * row carries (size_t) -1 and is skipped by the check (the struct's size / alignment rows and the neighbouring members still bind the layout).
+ * One probe per member name, selected by SFINAE so that the table compiles whatever the structs call their members. */
+#define MEMBER_PROBE(m) \
+    struct probe_##m { \
+        template <class T> static constexpr auto off(int) -> decltype((void) sizeof(((T*) nullptr)->m), size_t()) { return offsetof(T, m); } \
+        template <class T> static constexpr size_t off(...) { return (size_t) -1; } \
+        template <class T> static constexpr auto size(int) -> decltype((void) sizeof(((T*) nullptr)->m), size_t()) { return sizeof(((T*) nullptr)->m); } \
+        template <class T> static constexpr size_t size(...) { return (size_t) -1; } \
+    };
+/*MEMBER-PROBES-BEGIN*/
+MEMBER_PROBE(_coeff_idx)
+MEMBER_PROBE(_r)
+MEMBER_PROBE(a)
+MEMBER_PROBE(a0)
+MEMBER_PROBE(a1)
+MEMBER_PROBE(attrs)
+MEMBER_PROBE(b)
+MEMBER_PROBE(bsig)
+MEMBER_PROBE(c)
+MEMBER_PROBE(c0)
+MEMBER_PROBE(c1)
+MEMBER_PROBE(c2)
+MEMBER_PROBE(coeff_idx)
+MEMBER_PROBE(coeffs)
+MEMBER_PROBE(dwords)
+MEMBER_PROBE(g)
+MEMBER_PROBE(g1)
+MEMBER_PROBE(g2)
+MEMBER_PROBE(g2alpha)
+MEMBER_PROBE(g3)
+MEMBER_PROBE(h)
+MEMBER_PROBE(hash)
+MEMBER_PROBE(hexp)
+MEMBER_PROBE(hsig)
+MEMBER_PROBE(id)
+MEMBER_PROBE(idx)
+MEMBER_PROBE(infinity)
+MEMBER_PROBE(l)
+MEMBER_PROBE(length)
+MEMBER_PROBE(omitAllFromKeysUnlessPresent)
+MEMBER_PROBE(omitFromKeys)
+MEMBER_PROBE(p)
+MEMBER_PROBE(pairing)
+MEMBER_PROBE(prodexp)
+MEMBER_PROBE(q)
+MEMBER_PROBE(r)
+MEMBER_PROBE(rp)
+MEMBER_PROBE(s)
+MEMBER_PROBE(signatures)
+MEMBER_PROBE(sp)
+MEMBER_PROBE(sq)
+MEMBER_PROBE(val)
+MEMBER_PROBE(x)
+MEMBER_PROBE(y)
+MEMBER_PROBE(z)
+/*MEMBER-PROBES-END*/
+#define O(name, CT, cm, XT, xm) printf("O %s.%s %zu %zu %zu %zu\n", name, #cm, probe_##cm::off<CT>(0), probe_##xm::off<XT>(0), probe_##cm::size<CT>(0), probe_##xm::size<XT>(0));
 #define K(name, cond) printf("K %s %d\n", name, (cond) ? 1 : 0);
 
 int main() {
